@@ -1,6 +1,6 @@
 """C05 — revocation is honoured over the whole chain."""
 import vlib
-from props import _worlds
+from props import _worlds, _link
 
 RULE = 'chain depth 0..5 x revoked token {none, invocation, each delegation, root} x second unrevoked chain {no,yes} x 4 caveat shapes, with a recording checker that rejects authorizations containing a revoked link; compared: the sequence of authorizations handed to the checker (links and capabilities along Proofs()), its verdicts, the final verdict and whether the error reports the revocation; thorough adds 8000 random chains'
 
@@ -13,6 +13,8 @@ def check(run):
     stats = _worlds.run(run, env, "C05", extra_ties=())
     if stats is None:
         return
+    import os
+    _link.evaluate(run, os.path.join(run.wd, "cases"), "C05")
     _worlds.fill_cov(run, stats, RULE)
     run.cov["exhaustive"] = run.tier == 'quick'
     run.assumptions += _ASSUME
@@ -20,7 +22,8 @@ def check(run):
 
 _ASSUME = [
     "symbolic signatures: the harness tells the model which key produced each token's signature over its current fields (construction knowledge)",
-    "links are numbered CIDs: SHA-256 collision freedom",
+    "links are numbered CIDs (worlds): SHA-256 collision freedom",
+    "link integrity: U l is the token whose bytes hash to l — a theorem over the store defined by the supplied blocks (coq/LinkIntegrity.v), tied to delegation.Data() on the disguise block lists with the digest instantiated by observed (bytes, sha2-256) pairs; digest length 32 and collision freedom are explicit hypotheses of C04_store_deterministic / C04_link_names_one_token only",
     "Hres: the proof resolver returns the delegation whose link was asked for",
     "caller-supplied functions (can-issue, checker, resolvers, parser, capability readers and Derives) are the mirrored Go/Gallina pairs of harness/world.go and coq/Check_Validator.v"]
 
